@@ -19,3 +19,26 @@ Fixpoint wfb (v : val) : bool :=
   | VErr => false
   | _ => true
   end.
+
+(* a JSON value in canonical form *)
+Fixpoint jcanon (v : val) : bool :=
+  match v with
+  | VObj _ _ | VErr => false
+  | VDict kvs =>
+      sorted kvs && (fix all (l : list (str * val)) : bool := match l with [] => true | (_, x) :: r => jcanon x && all r end) kvs
+  | VList l => forallb jcanon l
+  | _ => true
+  end.
+
+(* a metabook value all of whose maps are key-sorted (the model's constructors only build such) *)
+Fixpoint msorted (v : val) : bool :=
+  match v with
+  | VErr => false
+  | VObj _ f =>
+      sorted f && (fix all (l : list (str * val)) : bool := match l with [] => true | (_, x) :: r => msorted x && all r end) f
+  | VDict kvs =>
+      sorted kvs && (fix all (l : list (str * val)) : bool := match l with [] => true | (_, x) :: r => msorted x && all r end) kvs
+  | VList l => forallb msorted l
+  | _ => true
+  end.
+
